@@ -128,10 +128,15 @@ func RunTimed(lg *rec.Log, sc TimedScenario, seed int64) []rec.Ev {
 			nrecv++
 			k := nrecv
 			rmu.Unlock()
-			e := rec.Ev{E: "recv", K: "N", U: us()}
+			e := rec.Ev{E: "recv", K: "N", U: us(), B: ctx != nil && ctx.Value(rec.KeySub) != nil}
 			switch x := v.(type) {
 			case int:
 				e.V = x
+				if hasSource && e.B {
+					// a value that passes through unchanged keeps the context it was emitted with (item marker = the value)
+					it, _ := ctx.Value(rec.KeyItem).(int)
+					e.B = it == x
+				}
 			case []any:
 				e.I = len(x)
 				if len(x) > 0 {
@@ -152,13 +157,13 @@ func RunTimed(lg *rec.Log, sc TimedScenario, seed int64) []rec.Ev {
 			if strings.Contains(err.Error(), "timeout") || errors.Is(err, context.DeadlineExceeded) {
 				c = 9
 			}
-			lg.Add(rec.Ev{E: "recv", K: "E", V: c, U: us()})
+			lg.Add(rec.Ev{E: "recv", K: "E", V: c, U: us(), B: ctx != nil && ctx.Value(rec.KeySub) != nil})
 			rmu.Lock()
 			nrecv++
 			rmu.Unlock()
 		},
 		func(ctx context.Context) {
-			lg.Add(rec.Ev{E: "recv", K: "C", U: us()})
+			lg.Add(rec.Ev{E: "recv", K: "C", U: us(), B: ctx != nil && ctx.Value(rec.KeySub) != nil})
 			rmu.Lock()
 			nrecv++
 			rmu.Unlock()
@@ -195,7 +200,7 @@ func RunTimed(lg *rec.Log, sc TimedScenario, seed int64) []rec.Ev {
 					time.Sleep(time.Duration(g) * time.Microsecond)
 				}
 				lg.Add(rec.Ev{E: "emit", I: i + 1, K: "N", V: i + 1, U: us()})
-				dst.D.NextWithContext(dst.Ctx, any(i+1))
+				dst.D.NextWithContext(context.WithValue(dst.Ctx, rec.KeyItem, i+1), any(i+1))
 				lg.Add(rec.Ev{E: "emitE", U: us()})
 			}
 			if sc.End != "" && sc.TermGap > 0 {
